@@ -7,7 +7,6 @@
 
 use crate::model::Model;
 use crate::variables::{VarId, View, Val};
-use crate::variables::views::ViewRaw;
 use crate::core::error::{SolverError, SolverResult};
 
 impl Model {
@@ -22,8 +21,13 @@ impl Model {
     /// let sum = m.add(x, y);
     /// ```
     pub fn add(&mut self, x: impl View, y: impl View) -> VarId {
-        let min = x.min_raw(&self.vars) + y.min_raw(&self.vars);
-        let max = x.max_raw(&self.vars) + y.max_raw(&self.vars);
+        let (Some((x_min, x_max)), Some((y_min, y_max))) = (self.operand_bounds(x), self.operand_bounds(y)) else {
+            let s = self.empty_result_var();
+            let _p = self.props.add(x, y, s);
+            return s;
+        };
+        let min = x_min + y_min;
+        let max = x_max + y_max;
         let s = self.new_var_unchecked(min, max);
 
         let _p = self.props.add(x, y, s);
@@ -42,8 +46,13 @@ impl Model {
     /// let diff = m.sub(x, y);
     /// ```
     pub fn sub(&mut self, x: impl View, y: impl View) -> VarId {
-        let min = x.min_raw(&self.vars) - y.max_raw(&self.vars);
-        let max = x.max_raw(&self.vars) - y.min_raw(&self.vars);
+        let (Some((x_min, x_max)), Some((y_min, y_max))) = (self.operand_bounds(x), self.operand_bounds(y)) else {
+            let s = self.empty_result_var();
+            let _p = self.props.sub(x, y, s);
+            return s;
+        };
+        let min = x_min - y_max;
+        let max = x_max - y_min;
         let s = self.new_var_unchecked(min, max);
 
         let _p = self.props.sub(x, y, s);
@@ -63,10 +72,11 @@ impl Model {
     /// let product = m.mul(x, y);
     /// ```
     pub fn mul(&mut self, x: impl View, y: impl View) -> VarId {
-        let x_min = x.min_raw(&self.vars);
-        let x_max = x.max_raw(&self.vars);
-        let y_min = y.min_raw(&self.vars);
-        let y_max = y.max_raw(&self.vars);
+        let (Some((x_min, x_max)), Some((y_min, y_max))) = (self.operand_bounds(x), self.operand_bounds(y)) else {
+            let s = self.empty_result_var();
+            let _p = self.props.mul(x, y, s);
+            return s;
+        };
         
         // Calculate all possible products at the corners
         let products = [
@@ -103,10 +113,11 @@ impl Model {
     /// let quotient = m.div(x, y);
     /// ```
     pub fn div(&mut self, x: impl View, y: impl View) -> VarId {
-        let x_min = x.min_raw(&self.vars);
-        let x_max = x.max_raw(&self.vars);
-        let y_min = y.min_raw(&self.vars);
-        let y_max = y.max_raw(&self.vars);
+        let (Some((x_min, x_max)), Some((y_min, y_max))) = (self.operand_bounds(x), self.operand_bounds(y)) else {
+            let s = self.empty_result_var();
+            let _p = self.props.div(x, y, s);
+            return s;
+        };
         
         // Calculate bounds for division result
         let mut min = Val::ValF(f64::INFINITY);
@@ -162,10 +173,11 @@ impl Model {
     /// let remainder = m.modulo(x, y);
     /// ```
     pub fn modulo(&mut self, x: impl View, y: impl View) -> VarId {
-        let x_min = x.min_raw(&self.vars);
-        let x_max = x.max_raw(&self.vars);
-        let y_min = y.min_raw(&self.vars);
-        let y_max = y.max_raw(&self.vars);
+        let (Some((x_min, x_max)), Some((y_min, y_max))) = (self.operand_bounds(x), self.operand_bounds(y)) else {
+            let s = self.empty_result_var();
+            let _p = self.props.modulo(x, y, s);
+            return s;
+        };
         
         // IMPORTANT: We must create the result variable with bounds that account for
         // potential pending deferred constraints. Since we can't know what those are,
@@ -267,8 +279,11 @@ impl Model {
     /// let abs_x = m.abs(x);
     /// ```
     pub fn abs(&mut self, x: impl View) -> VarId {
-        let x_min = x.min_raw(&self.vars);
-        let x_max = x.max_raw(&self.vars);
+        let Some((x_min, x_max)) = self.operand_bounds(x) else {
+            let s = self.empty_result_var();
+            let _p = self.props.abs(x, s);
+            return s;
+        };
         
         // Calculate bounds for absolute value result
         // |x| is always >= 0
@@ -356,8 +371,11 @@ impl Model {
         let mut min_of_maxs = None;
 
         for &var in vars {
-            let var_min = var.min_raw(&self.vars);
-            let var_max = var.max_raw(&self.vars);
+            let Some((var_min, var_max)) = self.operand_bounds(var) else {
+                let result = self.empty_result_var();
+                let _p = self.props.min(vars.to_vec(), result);
+                return Ok(result);
+            };
 
             // Update minimum of minimums (lower bound for result)
             min_of_mins = Some(match min_of_mins {
@@ -416,8 +434,11 @@ impl Model {
         let mut max_of_maxs = None;
 
         for &var in vars {
-            let var_min = var.min_raw(&self.vars);
-            let var_max = var.max_raw(&self.vars);
+            let Some((var_min, var_max)) = self.operand_bounds(var) else {
+                let result = self.empty_result_var();
+                let _p = self.props.max(vars.to_vec(), result);
+                return Ok(result);
+            };
 
             // Update maximum of minimums (lower bound for result)
             max_of_mins = Some(match max_of_mins {
@@ -468,9 +489,15 @@ impl Model {
     pub fn sum_iter(&mut self, xs: impl IntoIterator<Item = impl View>) -> VarId {
         let xs: Vec<_> = xs.into_iter().collect();
 
-        let min: Val = xs.iter().map(|x| x.min_raw(&self.vars)).sum();
-        let max: Val = xs.iter().map(|x| x.max_raw(&self.vars)).sum();
-        let s = self.new_var_unchecked(min, max);
+        let bounds: Option<Vec<(Val, Val)>> = xs.iter().map(|x| self.operand_bounds(*x)).collect();
+        let s = match bounds {
+            Some(bounds) => {
+                let min: Val = bounds.iter().map(|b| b.0).sum();
+                let max: Val = bounds.iter().map(|b| b.1).sum();
+                self.new_var_unchecked(min, max)
+            }
+            None => self.empty_result_var(),
+        };
 
         let _p = self.props.sum(xs, s);
 
